@@ -6,6 +6,7 @@ CONSTANTS
   Head0 <- HeadQ
   MaxCrash = 1
   MaxTries = 3
+  AcceptRepair = TRUE
   LockedMarker = TRUE
   Known <- KnownAll
 INVARIANT C21Inv
